@@ -14,10 +14,80 @@ pub fn val_of(kind: Kind, i: i128, off: i32) -> Val {
     match kind {
         Kind::DateTime => {
             let l = i + off as i128 * NS;
-            Val { kind, day: l.div_euclid(D) as i64, tod: l.rem_euclid(D) as u64, off }
+            Val::new(kind, l.div_euclid(D) as i64, l.rem_euclid(D) as u64, off)
         }
-        Kind::Date => Val { kind, day: i.div_euclid(D) as i64, tod: 0, off: 0 },
-        Kind::Time => Val { kind, day: 0, tod: (i.rem_euclid(D) + off as i128 * NS).rem_euclid(D) as u64, off },
+        Kind::Date => Val::new(kind, i.div_euclid(D) as i64, 0, 0),
+        Kind::Time => Val::new(kind, 0, (i.rem_euclid(D) + off as i128 * NS).rem_euclid(D) as u64, off),
+    }
+}
+
+/// The library value of (kind, instant, offset).
+pub enum LibVal {
+    Dt(astrolabe::DateTime),
+    D(Date),
+    T(Time),
+}
+
+pub fn lib_value(kind: Kind, i: i128, off: i32) -> LibVal {
+    match kind {
+        Kind::DateTime => LibVal::Dt(mk_off(i, off)),
+        Kind::Date => LibVal::D(Date::from_timestamp((i.div_euclid(D) as i64 - cal::DAYS_TO_1970) * 86_400)),
+        Kind::Time => LibVal::T(Time::from_nanos(i.rem_euclid(D) as u64).unwrap().set_offset(Offset::Fixed(off))),
+    }
+}
+
+impl LibVal {
+    pub fn format(&self, pattern: &str) -> String {
+        match self {
+            LibVal::Dt(x) => x.format(pattern),
+            LibVal::D(x) => x.format(pattern),
+            LibVal::T(x) => x.format(pattern),
+        }
+    }
+
+    /// What the formatter should see **according to the value's own getters** (the property's
+    /// words: "numeric fields are the getter values"). The week number has no getter: the value the
+    /// library prints for a bare `w` is taken as the field value, so that this property judges how
+    /// fields are rendered and C02 judges which week/weekday/day-of-year a date has.
+    /// None = the getters do not describe a value at all (another property's defect): case skipped.
+    pub fn getter_val(&self, kind: Kind) -> Option<Val> {
+        use astrolabe::TimeUtilities;
+        let off_of = |o: Offset| match o {
+            Offset::Fixed(s) => Some(s),
+            Offset::Local => None,
+        };
+        let tod_of = |h: u32, mi: u32, s: u32, n: u32| -> Option<u64> {
+            if h > 23 || mi > 59 || s > 59 || n > 999_999_999 {
+                return None;
+            }
+            Some((h as u64 * 3600 + mi as u64 * 60 + s as u64) * 1_000_000_000 + n as u64)
+        };
+        let date_part = |y: i32, m: u32, d: u32, doy: u32, wd: u8, week_text: String| -> Option<(i64, u32, u32, u32)> {
+            if !cal::valid_display(y as i64, m, d) || doy == 0 || doy > 366 || wd > 6 {
+                return None;
+            }
+            let week: u32 = week_text.parse().ok()?;
+            Some((cal::days_from_civil(cal::astro_year(y as i64), m, d), week, doy, wd as u32))
+        };
+        match self {
+            LibVal::Dt(x) => {
+                let (day, week, doy, wd) = date_part(x.year(), x.month(), x.day(), x.day_of_year(), x.weekday(), x.format("w"))?;
+                let mut v = Val::new(kind, day, tod_of(x.hour(), x.minute(), x.second(), x.nano())?, off_of(x.get_offset())?);
+                v.week = Some(week);
+                v.doy = Some(doy);
+                v.wday_sun0 = Some(wd);
+                Some(v)
+            }
+            LibVal::D(x) => {
+                let (day, week, doy, wd) = date_part(x.year(), x.month(), x.day(), x.day_of_year(), x.weekday(), x.format("w"))?;
+                let mut v = Val::new(kind, day, 0, 0);
+                v.week = Some(week);
+                v.doy = Some(doy);
+                v.wday_sun0 = Some(wd);
+                Some(v)
+            }
+            LibVal::T(x) => Some(Val::new(kind, 0, tod_of(x.hour(), x.minute(), x.second(), x.nano())?, off_of(x.get_offset())?)),
+        }
     }
 }
 
@@ -139,7 +209,17 @@ pub fn gen_pattern(rng: &mut Rng, kind: Kind) -> String {
 }
 
 fn judge(rec: &mut Rec, kind: Kind, i: i128, off: i32, pattern: &str, single: Option<(char, usize)>) {
-    let v = val_of(kind, i, off);
+    let Ok(lv) = trap(|| lib_value(kind, i, off)) else {
+        rec.bin(super::diff::SKIP_START);
+        return;
+    };
+    let v = match trap(|| lv.getter_val(kind)) {
+        Ok(Some(v)) => v,
+        _ => {
+            rec.bin("skipped/getters-do-not-describe-a-value(other-property)");
+            return;
+        }
+    };
     let exp = match render(&v, pattern) {
         Some(e) => e,
         None => {
@@ -157,8 +237,8 @@ fn judge(rec: &mut Rec, kind: Kind, i: i128, off: i32, pattern: &str, single: Op
         rec.bin_s(format!("{}:{}{}/{}", kind_name(kind), c, w, value_class(&v, c)));
     }
     rec.nontrivial(hash_str(pattern) ^ hash_i128s(&[i, off as i128, kind as i128]));
-    let r = trap(|| lib_format(kind, i, off, pattern));
-    let wit = |obs: Value| json!({"type": kind_name(kind), "value_utc": show(i), "offset": off, "pattern": pattern, "documented_rendering": exp, "observed": obs});
+    let r = trap(|| lv.format(pattern));
+    let wit = |obs: Value| json!({"type": kind_name(kind), "value_utc": show(i), "offset": off, "pattern": pattern, "documented_rendering_of_the_getter_values": exp, "getter_values(local day number, ns of day, offset, week, doy, weekday)": format!("{:?}", (v.day, v.tod, v.off, v.week, v.doy, v.wday_sun0)), "observed": obs});
     match r {
         Err(p) => rec.violation(format!("C11|{}|format|panic|{},{}", kind_name(kind), p.class, p.site()), || wit(p.to_json())),
         Ok(got) => {
@@ -172,7 +252,7 @@ fn judge(rec: &mut Rec, kind: Kind, i: i128, off: i32, pattern: &str, single: Op
                                 continue;
                             }
                             let p1: String = std::iter::repeat(c).take(w).collect();
-                            if let (Ok(e1), Ok(g1)) = (render_run(&v, c, w), trap(|| lib_format(kind, i, off, &p1))) {
+                            if let (Ok(e1), Ok(g1)) = (render_run(&v, c, w), trap(|| lv.format(&p1))) {
                                 if e1 != g1 {
                                     let tag = format!("{}[{}]", c, value_class(&v, c));
                                     if !culprits.contains(&tag) {
@@ -249,7 +329,7 @@ pub fn run(ctx: &Ctx) -> PropResult {
     let out = run_workloads(ctx, wls);
     let mut meta = PropMeta::default();
     meta.rule = format!(
-        "every (type, symbol, width 1..=10) — {} combinations — against {} values each (strata: BC and 5–7 digit years, 1–3 digit years, hours 0/11/12/13/23, noon/midnight ±1 s, week 52/53/1 year edges, month ends, offsets with minutes and seconds of both signs and offsets that move the local date); random compositions of 1–8 tokens with ASCII punctuation, non-symbol letters, digits, multi-byte literals, quoted segments with doubled apostrophes and the other type's symbols. Oracle: fmt_spec, a renderer written from the documentation tables (self-checked on the documentation's examples). Not judged: `yy` on negative years, NUL, unterminated quotes. Every judged case is non-trivial; distinct by hash of (value, pattern).",
+        "every (type, symbol, width 1..=10) — {} combinations — against {} values each (strata: BC and 5–7 digit years, 1–3 digit years, hours 0/11/12/13/23, noon/midnight ±1 s, week 52/53/1 year edges, month ends, offsets with minutes and seconds of both signs and offsets that move the local date); random compositions of 1–8 tokens with ASCII punctuation, non-symbol letters, digits, multi-byte literals, quoted segments with doubled apostrophes and the other type's symbols. Oracle: fmt_spec, a renderer written from the documentation tables (self-checked on the documentation's examples), fed with the value's own getter values (year, month, day, day_of_year, weekday, hour … nano, get_offset; the week number, which has no getter, is what a bare `w` prints) — which date/week/weekday an instant has is C01/C02/C10's claim, how the fields are rendered is this one's. Not judged: `yy` on negative years, NUL, unterminated quotes. Every judged case is non-trivial; distinct by hash of (value, pattern).",
         combos.len(),
         per
     );
